@@ -2,6 +2,7 @@ import Driver.Util
 import Resvg.Tree.Collect
 import Resvg.Convert.FilterInputs
 import Resvg.Writer.Escape
+import Resvg.Writer.Num
 namespace Driver
 open Resvg.Tree Resvg.Convert
 
@@ -75,6 +76,10 @@ def handleRefs (op : String) (args : List String) : String :=
       joinSp ((convertFilter ps).map fun (ins, r) =>
         showInp.hexStr r ++ "|" ++ ",".intercalate (ins.map showInp))
     | none => "bad-op"
+  | "writenum", [p, bits] =>
+    match p.toNat?, parseF32? bits with
+    | some p, some num => showBits (Resvg.F32.rnd (Resvg.Writer.writeNumValue Resvg.F32.rnd p num))
+    | _, _ => "bad-op"
   | "escattr", [q, hex] =>
     -- q: `d` (double quotes) or `s` (single quotes); hex: UTF-8 bytes of the string
     match optStr? ("=" ++ hex) with
